@@ -497,6 +497,10 @@ def main():
         if i % 20 == 19:
             gc.collect()
     validate(chk, traces)
+    # executions nobody scheduled: every connection of the repository's own tests, message by message, against RpycEndpoint
+    from harness import suite_traces
+    chans, summary, files = suite_traces.record(suite_traces.ALL_FILES)
+    suite_traces.validate_endpoint(chk, PID, chans, "%d test files: %s" % (len(files), summary))
     chk.assumptions += ["each side is single-threaded (multi-threaded sharing is C13); frames are delivered whole, in order",
                         "auxiliary requests (release notices of dropped proxies) are delivered eagerly and are subject to the "
                         "same frame-level ledger"]
